@@ -6,7 +6,7 @@ inspected inside free(), writable segments searched).  Part 2: all n x alignment
 entry points, for the library built at several optimisation levels: exactly the addressed bytes change."""
 import os, sys, json, time, subprocess, re
 from concurrent.futures import ThreadPoolExecutor
-from . import vbuild, common
+from . import vbuild, common, crosspass
 ROOT = common.ROOT
 SRCD = os.path.join(ROOT, "engine", "c18")
 OUT = os.path.join(ROOT, "build", "c18")
@@ -132,6 +132,11 @@ def run(tier, deadline):
                 if o["t"] == "viol":
                     sig = o["sig"] + "|lib=" + lib; e = viol.setdefault(sig, [0, f"inplace {lib} {o['case']}"]); e[0] += o["n"]
                 else: calls2 += o["calls"]
+    # borrowed passes: the erase entry points as macros of the public headers (each argument evaluated once) and their footprint in the library's static storage (a cached fill block would be shared state)
+    ER = ("memset_s", "memset16_s", "memset32_s", "memzero_s", "memzero16_s", "memzero32_s", "strzero_s", "wmemset_s")
+    xv, xn, xi = crosspass.hdr("C18", lambda n: n in ER, tier); internal += xi
+    fv, fn_, fi = crosspass.footprint("C18", list(ER), tier, 600); internal += fi
+    for sig, case, n in xv + fv: e = viol.setdefault(sig, [0, case]); e[0] += n
     if internal:
         for m in internal[:10]: print("INTERNAL-ERROR:", m, file=sys.stderr)
         return 2
@@ -150,6 +155,7 @@ def run(tier, deadline):
 
 
 def replay(kv, quiet=False):
+    if crosspass.is_cross(kv["case"]): return crosspass.replay(kv, quiet)
     c = kv["case"].split()
     if c[0] == "scenario":
         name = c[1]; tier = "thorough"
